@@ -1,11 +1,13 @@
 package checks
 
 import (
+	"bytes"
 	"crypto/ed25519"
 	"errors"
 	"fmt"
 	sif "github.com/lidofinance/dc4bc/fsm/state_machines/signing_proposal_fsm"
 	"github.com/lidofinance/dc4bc/fsm/types/requests"
+	"time"
 
 	"github.com/lidofinance/dc4bc/client/types"
 	spf "github.com/lidofinance/dc4bc/fsm/state_machines/signature_proposal_fsm"
@@ -272,6 +274,48 @@ func c09(tier string, args []string) int {
 							continue // crashes are judged by C18
 						}
 						rejected++
+					}
+				}
+			}
+			// a round whose opening proposal registers a malformed communication key for one
+			// participant (the proposal is accepted with any key of 10 bytes or more): messages in that
+			// participant's name can never carry a valid signature - every one of them is refused
+			for _, keyLen := range []int{10, 31, 33, 64} {
+				idx := make([]int, rec.W.N)
+				for i := range idx {
+					idx[i] = i
+				}
+				req := rec.W.InitProposal(rec.W.T, idx)
+				req.CreatedAt = world.T0.Add(time.Duration(77 + keyLen))
+				odd := rec.W.N - 1
+				if odd == v {
+					odd = 0
+				}
+				req.Participants[odd].PubKey = bytes.Repeat([]byte{7}, keyLen)
+				payload := world.MustJSON(req)
+				rid := world.RoundID(payload)
+				open := world.SignedMessage(rid, string(spf.EventInitProposal), payload, rec.W.Nodes[v].Name, rec.W.Nodes[v].KeyPair.Priv, "")
+				_, base, _ := lab.Step(rec.Snaps[v][0], open)
+				if base.RoundState(rid) != string(spf.StateAwaitParticipantsConfirmations) {
+					continue // this node refuses such a proposal: nothing to forge against
+				}
+				for _, ev := range []string{string(spf.EventConfirmSignatureProposal), string(spf.EventDeclineProposal)} {
+					data := world.MustJSON(requests.SignatureProposalParticipantRequest{ParticipantId: odd, CreatedAt: world.T0})
+					variants := map[string]storage.Message{
+						"unsigned":               {DkgRoundID: rid, Event: ev, Data: data, SenderAddr: rec.W.Nodes[odd].Name},
+						"signed-by-fresh-key":    world.SignedMessage(rid, ev, data, rec.W.Nodes[odd].Name, freshKey("c09-odd"), ""),
+						"signed-by-own-real-key": world.SignedMessage(rid, ev, data, rec.W.Nodes[odd].Name, rec.W.Nodes[odd].KeyPair.Priv, ""),
+					}
+					for _, name := range world.SortedKeys(variants) {
+						err, after, appended := lab.Step(base, variants[name])
+						evals++
+						classes[fmt.Sprintf("malformed-key-%d|%s|%s", keyLen, ev, name)] = true
+						trace := map[string]interface{}{"view": v, "registered_key_length": keyLen, "participant": odd, "event": ev, "message": name}
+						if ch := changedProtected(base, after); len(ch) > 0 || len(appended) > 0 || err == nil {
+							r.Violation("C09/unauthentic-message-had-effect/malformed-registered-key/"+name, fmt.Sprintf("participant %d is registered with a %d-byte key; a %s in its name (%s) was acted on: changed %v, error %v", odd, keyLen, ev, name, ch, err), trace)
+						} else {
+							rejected++
+						}
 					}
 				}
 			}
